@@ -99,11 +99,9 @@ func CheckStreams(c *Ctx, t *Tun, v *TunVerdict, oracle string, wantComplete boo
 	p, cl := t.Plan, t.Client
 	sv := &StreamVerdict{}
 	var hostGot, hostSent []byte
-	for _, h := range t.Hosts {
-		for _, hc := range h.Conns {
-			hostGot = append(hostGot, hc.Recv...)
-			hostSent = append(hostSent, hc.Sent()...)
-		}
+	for _, hc := range t.HostConns() {
+		hostGot = append(hostGot, hc.Recv...)
+		hostSent = append(hostSent, hc.Sent()...)
 	}
 	var clientGot []byte
 	for _, e := range cl.Events {
